@@ -107,6 +107,12 @@ def build(d):
         return build_schema(d["cls"], d["props"])
     if k == "optional":
         return optional(build(d["key"]))
+    if k == "error":
+        import d42.validation.errors as E
+        cls = getattr(E, d["cls"])
+        a = d["attrs"]
+        order = ["path", "actual_value"] + [x for x in a if x not in ("path", "actual_value")]
+        return cls(*[build(a[x]) for x in order])
     if k == "path":
         from th import PathHolder
         p = PathHolder()
@@ -327,6 +333,8 @@ def oracle_C02(inp):
 
 
 def oracle_C08(inp):
+    if "error" in inp:
+        return oracle_format(inp)
     S, v = build(inp["schema"]), build(inp["value"])
     from d42.validation import ValidationException, validate_or_fail
     try:
@@ -391,8 +399,47 @@ def error_fact_true(e, sub) -> bool:
     return True
 
 
+def oracle_format(inp):
+    """Formatter-level: rendering an error is total, non-empty, names the error's path, is repeatable
+    and leaves the error untouched."""
+    from copy import deepcopy
+    from d42.validation import Formatter
+    from th import PathHolder
+    e = build(inp["error"])
+    fm = Formatter()
+    before = [x for x in e.path]
+    try:
+        m1 = e.format(fm)
+        m2 = e.format(fm)
+    except Exception as x:
+        return True, f"formatting {e!r} raised {x!r}"
+    after = [x for x in e.path]
+    if not isinstance(m1, str) or not m1:
+        return True, f"empty message for {e!r}"
+    if m1 != m2:
+        return True, f"rendering {type(e).__name__} twice gives {m1!r} then {m2!r}"
+    if before != after:
+        return True, f"rendering changed the error's path: {before} -> {after}"
+    shown = before
+    n = type(e).__name__
+    if n == "MissingElementValidationError":
+        shown = before + [e.index]
+    if n == "MissingKeyValidationError":
+        shown = before + [e.missing_key]
+    if shown:
+        p = PathHolder()
+        for k in shown:
+            p = p[k]
+        text = str(PathHolder("_", [x for x in p]))
+        if text not in m1:
+            return True, f"message {m1!r} does not name path {text}"
+    return False, f"{m1!r}"
+
+
 def oracle_C03(inp):
     from d42.validation import Formatter
+    if "error" in inp:
+        return oracle_format(inp)
     S, v = build(inp["schema"]), build(inp["value"])
     fm = Formatter()
     bad = []
@@ -433,6 +480,16 @@ def oracle_C03(inp):
             text = str(PathHolder("_", [x for x in shown]))
             if text not in msg:
                 bad.append(f"{n}: message {msg!r} does not name path {text}")
+    # rendering is pure: formatting again gives the same text and leaves every error's path alone
+    errs = validate(S, v, **kw).get_errors()
+    before = [[x for x in e.path] for e in errs]
+    first = [e.format(fm) for e in errs]
+    second = [e.format(fm) for e in errs]
+    after = [[x for x in e.path] for e in errs]
+    if first != second:
+        bad.append(f"rendering the same errors twice gives different messages: {first} vs {second}")
+    if before != after:
+        bad.append(f"rendering changed an error's path: {before} -> {after}")
     return bool(bad), ("; ".join(bad) if bad else "all errors located and true") + f"; S={S!r} v={v!r}"
 
 
